@@ -99,7 +99,7 @@ theorem setVal_NB {E : Env} (hS : SetLaws E) {uns : Bool} {t : Ty} (hw : wf t = 
 
 def RecNB (E : Env) (rec : Rec) : Prop :=
   ∀ (inT out : Ty) (uns : Bool) (c : Plan) (v : Value), gck E inT out uns = some c →
-    Conds E inT out v → Payload.whollyKnown v.v = true → NB uns (rec (.wrap out c) v)
+    Conds inT out v → Payload.whollyKnown v.v = true → NB uns (rec (.wrap out c) v)
 
 theorem whollyKnownL_mem : ∀ {ps : List Payload}, Payload.whollyKnownL ps = true →
     ∀ p ∈ ps, Payload.whollyKnown p = true
@@ -116,7 +116,7 @@ include hU hS hrec hnb
 
 omit hU hS hrec in
 theorem planFor_NB {uns : Bool} {it ot : Ty} {p : Plan} {e : Value} (hp : PlanFor E uns it ot p)
-    (hc : Conds E it ot e) (hk : Payload.whollyKnown e.v = true) : NB uns (applyOpt rec p e) := by
+    (hc : Conds it ot e) (hk : Payload.whollyKnown e.v = true) : NB uns (applyOpt rec p e) := by
   rcases hp with ⟨rfl, _⟩ | ⟨c, rfl, hg⟩
   · exact NB.ok _
   · exact hnb it ot uns c e hg hc hk
@@ -128,18 +128,18 @@ def Members (es : List Value) (ie : Ty) : Prop :=
 omit hU hS hrec in
 theorem members_NB {uns : Bool} {ie oe conv} {post : Value → Value}
     (hpf : PlanFor E uns ie oe conv) (hwi : wf ie = true) (hoi : hasOpt ie = false)
-    (hwo : wf oe = true) (hdo : hasDyn oe = false) (hreg : regular E ie oe = true)
+    (hwo : wf oe = true) (hdo : hasDyn oe = false)
     {es : List Value} (hes : Members es ie) :
     NB uns (mapRes (fun e => (applyOpt rec conv e).map post) es) := by
   apply mapRes_NB
   intro e he
   obtain ⟨h1, h2, h3⟩ := hes e he
-  exact NB.map (planFor_NB hnb hpf ⟨h1, hwi, hwo, hoi, hdo, hreg, h2⟩ h3)
+  exact NB.map (planFor_NB hnb hpf ⟨h1, hwi, hwo, hoi, hdo, h2⟩ h3)
 
 omit hS in
 theorem collToList_NB {uns : Bool} {ie oe conv} {v : Value} {es : List Value}
     (hpf : PlanFor E uns ie oe conv) (hwi : wf ie = true) (hoi : hasOpt ie = false)
-    (hwo : wf oe = true) (hdo : hasDyn oe = false) (hreg : regular E ie oe = true)
+    (hwo : wf oe = true) (hdo : hasDyn oe = false)
     (hes : elemsOf E v = .ok es) (hm : Members es ie) :
     NB uns (applyStep E rec (.collToList oe conv) v) := by
   have hnd : oe.isDyn = false := not_isDyn_of_noDyn hdo
@@ -148,9 +148,9 @@ theorem collToList_NB {uns : Bool} {ie oe conv} {v : Value} {es : List Value}
   · exact NB.ok _
   · refine NB.bind (NB.ok _) fun es0 h0 => ?_
     simp at h0; subst h0
-    refine NB.bind (members_NB hnb hpf hwi hoi hwo hdo hreg hm) fun es' hes' => ?_
+    refine NB.bind (members_NB hnb hpf hwi hoi hwo hdo hm) fun es' hes' => ?_
     have hty := converted_members hU hrec (post := stripNull) (fun _ hv => stripNull_ty' hv)
-      hpf hwi hoi hwo hdo hreg (fun e he => ⟨(hm e he).1, (hm e he).2.1⟩) hes'
+      hpf hwi hoi hwo hdo (fun e he => ⟨(hm e he).1, (hm e he).2.1⟩) hes'
     split
     · exact NB.ok _
     · rename_i hne
@@ -162,16 +162,16 @@ theorem collToList_NB {uns : Bool} {ie oe conv} {v : Value} {es : List Value}
 
 theorem collToSet_NB {uns : Bool} {ie oe conv} {v : Value} {es : List Value}
     (hpf : PlanFor E uns ie oe conv) (hwi : wf ie = true) (hoi : hasOpt ie = false)
-    (hwo : wf oe = true) (hdo : hasDyn oe = false) (hreg : regular E ie oe = true)
+    (hwo : wf oe = true) (hdo : hasDyn oe = false)
     (hes : elemsOf E v = .ok es) (hm : Members es ie) :
     NB uns (applyStep E rec (.collToSet oe conv) v) := by
   have hnd : oe.isDyn = false := not_isDyn_of_noDyn hdo
   simp only [applyStep, hnd, hes]
   refine NB.bind (NB.ok _) fun es0 h0 => ?_
   simp at h0; subst h0
-  refine NB.bind (members_NB hnb hpf hwi hoi hwo hdo hreg hm) fun es' hes' => ?_
+  refine NB.bind (members_NB hnb hpf hwi hoi hwo hdo hm) fun es' hes' => ?_
   have hty := converted_members hU hrec (post := stripNull) (fun _ hv => stripNull_ty' hv)
-    hpf hwi hoi hwo hdo hreg (fun e he => ⟨(hm e he).1, (hm e he).2.1⟩) hes'
+    hpf hwi hoi hwo hdo (fun e he => ⟨(hm e he).1, (hm e he).2.1⟩) hes'
   split
   · exact NB.ok _
   · rename_i hne
@@ -184,7 +184,7 @@ theorem collToSet_NB {uns : Bool} {ie oe conv} {v : Value} {es : List Value}
 omit hS in
 theorem collToMap_NB {uns : Bool} {ie oe conv} {v : Value} {es : List Value}
     (hpf : PlanFor E uns ie oe conv) (hwi : wf ie = true) (hoi : hasOpt ie = false)
-    (hwo : wf oe = true) (hdo : hasDyn oe = false) (hreg : regular E ie oe = true)
+    (hwo : wf oe = true) (hdo : hasDyn oe = false)
     (hes : elemsOf E v = .ok es) (hm : Members es ie) :
     NB uns (applyStep E rec (.collToMap oe conv) v) := by
   have hnd : oe.isDyn = false := not_isDyn_of_noDyn hdo
@@ -194,9 +194,9 @@ theorem collToMap_NB {uns : Bool} {ie oe conv} {v : Value} {es : List Value}
   have hfun : (fun e => applyOpt rec conv e) = fun e => (applyOpt rec conv e).map id := by
     funext e; cases applyOpt rec conv e <;> rfl
   rw [hfun]
-  refine NB.bind (members_NB hnb hpf hwi hoi hwo hdo hreg hm) fun es' hes' => ?_
+  refine NB.bind (members_NB hnb hpf hwi hoi hwo hdo hm) fun es' hes' => ?_
   have hty := converted_members hU hrec (post := id) (fun _ hv => hv)
-    hpf hwi hoi hwo hdo hreg (fun e he => ⟨(hm e he).1, (hm e he).2.1⟩) hes'
+    hpf hwi hoi hwo hdo (fun e he => ⟨(hm e he).1, (hm e he).2.1⟩) hes'
   split
   · exact NB.ok _
   · rename_i hne
@@ -215,7 +215,7 @@ omit hU hS hrec in
 theorem applyZip_all_NB {uns : Bool} {t : Ty} (post : Value → Value) (hwt : wf t = true) (hdt : hasDyn t = false) :
     ∀ (its : List Ty) (cs : List Plan) (ps : List Payload),
     All2 (fun it p => PlanFor E uns it t p) its cs → wtZip its ps = true → Payload.whollyKnownL ps = true →
-    (∀ it ∈ its, wf it = true ∧ hasOpt it = false ∧ regular E it t = true) →
+    (∀ it ∈ its, wf it = true ∧ hasOpt it = false) →
     NB uns (applyZip rec post cs (zipTys its ps))
   | [], _, [], .nil, _, _, _ => by simp only [zipTys, applyZip]; exact NB.ok _
   | [], _, _ :: _, _, hw, _, _ => by simp [wtZip] at hw
@@ -224,8 +224,8 @@ theorem applyZip_all_NB {uns : Bool} {t : Ty} (post : Value → Value) (hwt : wf
     simp only [wtZip, Bool.and_eq_true] at hw
     simp only [Payload.whollyKnownL, Bool.and_eq_true] at hk
     simp only [zipTys, applyZip]
-    obtain ⟨hwi, hoi, hri⟩ := hall it (by simp)
-    refine NB.bind (planFor_NB hnb hp ⟨rfl, hwi, hwt, hoi, hdt, hri, hw.1⟩ hk.1) fun v' _ => ?_
+    obtain ⟨hwi, hoi⟩ := hall it (by simp)
+    refine NB.bind (planFor_NB hnb hp ⟨rfl, hwi, hwt, hoi, hdt, hw.1⟩ hk.1) fun v' _ => ?_
     refine NB.bind (applyZip_all_NB post hwt hdt its _ ps hps hw.2 hk.2 fun x hx => hall x (by simp [hx]))
       fun vs' _ => NB.ok _
 
@@ -235,27 +235,26 @@ theorem applyZip_zip_NB {uns : Bool} :
     All3 (fun it ot p => PlanFor E uns it ot p) its ots cs → wtZip its ps = true →
     Payload.whollyKnownL ps = true →
     wfL its = true → hasOptL its = false → wfL ots = true → hasDynL ots = false →
-    regularZip E its ots = true → NB uns (applyZip rec id cs (zipTys its ps))
-  | [], _, _, [], .nil, _, _, _, _, _, _, _ => by simp only [zipTys, applyZip]; exact NB.ok _
-  | [], _, _, _ :: _, _, hw, _, _, _, _, _, _ => by simp [wtZip] at hw
-  | _ :: _, _, _, [], _, hw, _, _, _, _, _, _ => by simp [wtZip] at hw
-  | it :: its, ot :: ots, c :: cs, p :: ps, .cons hp hps, hw, hk, hwi, hoi, hwo, hdo, hr => by
+    NB uns (applyZip rec id cs (zipTys its ps))
+  | [], _, _, [], .nil, _, _, _, _, _, _ => by simp only [zipTys, applyZip]; exact NB.ok _
+  | [], _, _, _ :: _, _, hw, _, _, _, _, _ => by simp [wtZip] at hw
+  | _ :: _, _, _, [], _, hw, _, _, _, _, _ => by simp [wtZip] at hw
+  | it :: its, ot :: ots, c :: cs, p :: ps, .cons hp hps, hw, hk, hwi, hoi, hwo, hdo => by
     simp only [wtZip, Bool.and_eq_true] at hw
     simp only [Payload.whollyKnownL, Bool.and_eq_true] at hk
     simp only [wfL, Bool.and_eq_true] at hwi hwo
     simp only [hasOptL, Bool.or_eq_false_iff] at hoi
     simp only [hasDynL, Bool.or_eq_false_iff] at hdo
-    simp only [regularZip, Bool.and_eq_true] at hr
     simp only [zipTys, applyZip]
-    refine NB.bind (planFor_NB hnb hp ⟨rfl, hwi.1, hwo.1, hoi.1, hdo.1, hr.1, hw.1⟩ hk.1) fun v' _ => ?_
-    refine NB.bind (applyZip_zip_NB its ots cs ps hps hw.2 hk.2 hwi.2 hoi.2 hwo.2 hdo.2 hr.2)
+    refine NB.bind (planFor_NB hnb hp ⟨rfl, hwi.1, hwo.1, hoi.1, hdo.1, hw.1⟩ hk.1) fun v' _ => ?_
+    refine NB.bind (applyZip_zip_NB its ots cs ps hps hw.2 hk.2 hwi.2 hoi.2 hwo.2 hdo.2)
       fun vs' _ => NB.ok _
 
 omit hS in
 theorem tupToList_NB {uns : Bool} {its : List Ty} {oe : Ty} {cs : List Plan} {ps : List Payload}
     (hpl : All2 (fun it p => PlanFor E uns it oe p) its cs) (hne : its ≠ []) (hw : wtZip its ps = true)
     (hk : Payload.whollyKnownL ps = true)
-    (hall : ∀ it ∈ its, wf it = true ∧ hasOpt it = false ∧ regular E it oe = true)
+    (hall : ∀ it ∈ its, wf it = true ∧ hasOpt it = false)
     (hwo : wf oe = true) (hdo : hasDyn oe = false) :
     NB uns (applyStep E rec (.tupToList cs uns) ⟨.tuple its, .seq ps⟩) := by
   simp only [applyStep, elemsOf]
@@ -278,7 +277,7 @@ omit hU in
 theorem tupToSet_NB {uns : Bool} {its : List Ty} {oe : Ty} {cs : List Plan} {ps : List Payload}
     (hpl : All2 (fun it p => PlanFor E uns it oe p) its cs) (hne : its ≠ []) (hw : wtZip its ps = true)
     (hk : Payload.whollyKnownL ps = true)
-    (hall : ∀ it ∈ its, wf it = true ∧ hasOpt it = false ∧ regular E it oe = true)
+    (hall : ∀ it ∈ its, wf it = true ∧ hasOpt it = false)
     (hwo : wf oe = true) (hdo : hasDyn oe = false) :
     NB uns (applyStep E rec (.tupToSet cs) ⟨.tuple its, .seq ps⟩) := by
   simp only [applyStep, elemsOf]
@@ -301,7 +300,7 @@ theorem objToMap_NB {uns : Bool} {inn : List String} {its : List Ty} {ios : List
     {cs : List Plan} {ps : List Payload}
     (hpl : All2 (fun it p => PlanFor E uns it oe p) its cs) (hne : its ≠ []) (hw : wtZip its ps = true)
     (hk : Payload.whollyKnownL ps = true) (hnd : inn.Nodup) (hln : inn.length = its.length)
-    (hall : ∀ it ∈ its, wf it = true ∧ hasOpt it = false ∧ regular E it oe = true)
+    (hall : ∀ it ∈ its, wf it = true ∧ hasOpt it = false)
     (hwo : wf oe = true) (hdo : hasDyn oe = false) :
     NB uns (applyStep E rec (.objToMap inn cs oe uns) ⟨.object inn its ios, .smap inn ps⟩) := by
   simp only [applyStep, elemsOf, keysOf]
@@ -333,12 +332,12 @@ theorem tupToTup_NB {uns : Bool} {its ots : List Ty} {cs : List Plan} {ps : List
     (hpl : All3 (fun it ot p => PlanFor E uns it ot p) its ots cs) (hw : wtZip its ps = true)
     (hk : Payload.whollyKnownL ps = true)
     (hwi : wfL its = true) (hoi : hasOptL its = false) (hwo : wfL ots = true) (hdo : hasDynL ots = false)
-    (hr : regularZip E its ots = true) :
+    :
     NB uns (applyStep E rec (.tupToTup cs) ⟨.tuple its, .seq ps⟩) := by
   simp only [applyStep, elemsOf]
   refine NB.bind (NB.ok _) fun es0 h0 => ?_
   simp at h0; subst h0
-  exact NB.bind (applyZip_zip_NB hnb its ots cs ps hpl hw hk hwi hoi hwo hdo hr) fun _ _ => NB.ok _
+  exact NB.bind (applyZip_zip_NB hnb its ots cs ps hpl hw hk hwi hoi hwo hdo) fun _ _ => NB.ok _
 
 omit hU hS hrec in
 theorem objAttrLoop_NB {uns : Bool} {on : List String} {ot : List Ty} {oo : List Bool} {keys : List String}
@@ -356,8 +355,8 @@ theorem objAttrLoop_NB {uns : Bool} {on : List String} {ot : List Ty} {oo : List
     have ih := objAttrLoop_NB ns its cs ps hoks hw.2 hk.2
     rcases hap with ⟨rfl, _⟩ | ⟨oty, o, hf, hpf⟩
     · exact ih
-    · have hc : Conds E it oty ⟨it, p⟩ :=
-        ⟨rfl, hwi, (hout oty o hf).1, hoi, (hout oty o hf).2.1, (hout oty o hf).2.2, hw.1⟩
+    · have hc : Conds it oty ⟨it, p⟩ :=
+        ⟨rfl, hwi, (hout oty o hf).1, hoi, (hout oty o hf).2, hw.1⟩
       have hstep := planFor_NB hnb hpf hc hk.1
       rcases hpf with ⟨rfl, _⟩ | ⟨c', rfl, _⟩ <;>
         exact NB.bind hstep fun _ _ => NB.bind ih fun _ _ => NB.ok _
@@ -369,7 +368,7 @@ theorem objToObj_NB {uns : Bool} {inn : List String} {its : List Ty} {ios : List
     (hk : Payload.whollyKnownL ps = true)
     (hwfI : wf (.object inn its ios) = true) (hoI : hasOpt (.object inn its ios) = false)
     (hwfO : wf (.object on ot oo) = true) (hdO : hasDyn (.object on ot oo) = false)
-    (hreg : regularObj E inn its ios on ot = true) :
+    :
     NB uns (applyStep E rec (.objToObj inn cs on ot oo) ⟨.object inn its ios, .smap inn ps⟩) := by
   simp only [wf, Bool.and_eq_true, beq_iff_eq] at hwfI hwfO
   simp only [hasOpt, Bool.or_eq_false_iff] at hoI
@@ -384,8 +383,7 @@ theorem objToObj_NB {uns : Bool} {inn : List String} {its : List Ty} {ios : List
       simp only [List.nil_append] at hf
       refine ⟨wfL_mem hwfI.2 it (find_mem_ty hf), hasOptL_mem hoI.2 it (find_mem_ty hf), ?_⟩
       intro oty o hfo
-      exact ⟨wfL_mem hwfO.2 oty (find_mem_ty hfo), hasDynL_mem hdO oty (find_mem_ty hfo),
-        regularObj_find on ot oo hreg hfo it b hf⟩)
+      exact ⟨wfL_mem hwfO.2 oty (find_mem_ty hfo), hasDynL_mem hdO oty (find_mem_ty hfo)⟩)
   simp only [List.nil_append] at hok
   exact NB.bind (objAttrLoop_NB hnb inn its cs ps hok hw hk) fun _ _ => NB.ok _
 
@@ -395,7 +393,7 @@ theorem mapObjLoop_NB {ie : Ty} {names : List String} {tys : List Ty} {opts : Li
     (hl1 : names.length = tys.length) (hl2 : opts.length = tys.length)
     (hwi : wf ie = true) (hoi : hasOpt ie = false)
     (hty : ∀ n t o, Ty.find n names tys opts = some (t, o) →
-      wf t = true ∧ hasDyn t = false ∧ regular E ie t = true) :
+      wf t = true ∧ hasDyn t = false) :
     ∀ (ks : List String) (ps : List Payload), wtAll ie ps = true → Payload.whollyKnownL ps = true →
     NB true (mapObjLoop rec names tys opts convs ks (ps.map fun p => ⟨ie, p⟩))
   | [], _, _, _ => by simp only [mapObjLoop]; exact NB.ok _
@@ -412,13 +410,13 @@ theorem mapObjLoop_NB {ie : Ty} {names : List String} {tys : List Ty} {opts : Li
       have hsome := find_of_contains names tys opts hl1 hl2 hc'
       obtain ⟨⟨t, o⟩, hf⟩ := Option.isSome_iff_exists.mp hsome
       obtain ⟨pl, hlk, hmp⟩ := find_lookupPlan names tys opts convs hpl hf
-      obtain ⟨hwt, hdt, hrt⟩ := hty k t o hf
+      obtain ⟨hwt, hdt⟩ := hty k t o hf
       simp only [hlk]
       refine NB.bind ?_ fun _ _ => NB.bind ih fun _ _ => NB.ok _
       rcases hmp with rfl | ⟨rfl, _⟩ | ⟨c, rfl, hg⟩
       · exact NB.err _
       · exact NB.ok _
-      · exact hnb ie t true c ⟨ie, p⟩ hg ⟨rfl, hwi, hwt, hoi, hdt, hrt, hw.1⟩ hk.1
+      · exact hnb ie t true c ⟨ie, p⟩ hg ⟨rfl, hwi, hwt, hoi, hdt, hw.1⟩ hk.1
 
 omit hU hS hrec hnb in
 theorem mapObjFill_NB {keys : List String} {vals : List Value} :
@@ -441,17 +439,16 @@ theorem mapToObj_NB {ie : Ty} {on : List String} {ot : List Ty} {oo : List Bool}
     (hk : Payload.whollyKnownL ps = true)
     (hwi : wf ie = true) (hoi : hasOpt ie = false)
     (hwfO : wf (.object on ot oo) = true) (hdO : hasDyn (.object on ot oo) = false)
-    (hreg : regularAll E ie ot = true) :
+    :
     NB true (applyStep E rec (.mapToObj on ot oo cs) ⟨.map ie, .smap ks ps⟩) := by
   simp only [wf, Bool.and_eq_true, beq_iff_eq] at hwfO
   simp only [hasDyn] at hdO
   simp only [applyStep, elemsOf, keysOf]
   refine NB.bind (NB.ok _) fun es0 h0 => ?_
   simp at h0; subst h0
-  have hregmem := regularAll_mem hreg
   refine NB.bind (mapObjLoop_NB hnb hpl hwfO.1.1.1 hwfO.1.1.2 hwi hoi (by
       intro n t o hf
-      exact ⟨wfL_mem hwfO.2 t (find_mem_ty hf), hasDynL_mem hdO t (find_mem_ty hf), hregmem t (find_mem_ty hf)⟩)
+      exact ⟨wfL_mem hwfO.2 t (find_mem_ty hf), hasDynL_mem hdO t (find_mem_ty hf)⟩)
     ks ps hw hk) fun _ _ => ?_
   exact NB.bind (mapObjFill_NB on ot oo) fun _ _ => NB.ok _
 
@@ -492,9 +489,9 @@ theorem parseNumber_no_panic (s : String) (w : String) : parseNumber s ≠ .pani
 
 theorem inner_NB {E : Env} (hU : UnifyLaws E) (hS : SetLaws E) {rec : Rec} (hrec : RecOK E rec)
     (hnb : RecNB E rec) (inT out : Ty) (uns : Bool) (c : Plan) (v : Value)
-    (hg : gck E inT out uns = some c) (hc : Conds E inT out v) (hp : plain v.v)
+    (hg : gck E inT out uns = some c) (hc : Conds inT out v) (hp : plain v.v)
     (hk : Payload.whollyKnown v.v = true) : NB uns (applyStep E rec c v) := by
-  obtain ⟨hty, hwI, hwO, hoI, hdO, hreg, hwt⟩ := hc
+  obtain ⟨hty, hwI, hwO, hoI, hdO, hwt⟩ := hc
   obtain ⟨vt, vp⟩ := v
   simp only at hty hwt hp hk
   subst hty
@@ -535,7 +532,6 @@ theorem inner_NB {E : Env} (hU : UnifyLaws E) (hS : SetLaws E) {rec : Rec} (hrec
     case list ie =>
       have hwi : wf ie = true := by simpa [wf] using hwI
       have hoi : hasOpt ie = false := by simpa [hasOpt] using hoI
-      have hr : regular E ie oe = true := by simpa [regular, Ty.isDyn] using hreg
       obtain ⟨ps, rfl, hps⟩ := shape_list hp hwt
       have hkl : Payload.whollyKnownL ps = true := by simpa [Payload.whollyKnown] using hk
       have hm : Members (ps.map fun p => (⟨ie, p⟩ : Value)) ie := by
@@ -548,11 +544,10 @@ theorem inner_NB {E : Env} (hU : UnifyLaws E) (hS : SetLaws E) {rec : Rec} (hrec
         · obtain ⟨c', hc', rfl⟩ := Option.map_eq_some_iff.mp hg
           exact ⟨_, rfl, .inr ⟨c', rfl, hc'⟩⟩
       obtain ⟨conv, rfl, hpf⟩ := hpf
-      exact collToList_NB hU hrec hnb hpf hwi hoi hwo hdo hr rfl hm
+      exact collToList_NB hU hrec hnb hpf hwi hoi hwo hdo rfl hm
     case set ie =>
       have hwi : wf ie = true := by simpa [wf] using hwI
       have hoi : hasOpt ie = false := by simpa [hasOpt] using hoI
-      have hr : regular E ie oe = true := by simpa [regular, Ty.isDyn] using hreg
       obtain ⟨ids, ps, rfl, hps⟩ := shape_set hp hwt
       have hkl : Payload.whollyKnownL ps = true := by simpa [Payload.whollyKnown] using hk
       have hm : Members ((setValues E ie ps).map fun p => (⟨ie, p⟩ : Value)) ie := by
@@ -565,14 +560,10 @@ theorem inner_NB {E : Env} (hU : UnifyLaws E) (hS : SetLaws E) {rec : Rec} (hrec
         · obtain ⟨c', hc', rfl⟩ := Option.map_eq_some_iff.mp hg
           exact ⟨_, rfl, .inr ⟨c', rfl, hc'⟩⟩
       obtain ⟨conv, rfl, hpf⟩ := hpf
-      exact collToList_NB hU hrec hnb hpf hwi hoi hwo hdo hr rfl hm
+      exact collToList_NB hU hrec hnb hpf hwi hoi hwo hdo rfl hm
     case tuple its =>
       have hwi : wfL its = true := by simpa [wf] using hwI
       have hoi : hasOptL its = false := by simpa [hasOpt] using hoI
-      have hr : ∀ it ∈ its, regular E it oe = true := by
-        have := hreg
-        simp only [regular, Ty.isDyn, Bool.false_eq_true, if_false, Bool.and_eq_true] at this
-        exact all_of_regular this.1
       obtain ⟨ps, rfl, hps⟩ := shape_tuple hp hwt
       have hkl : Payload.whollyKnownL ps = true := by simpa [Payload.whollyKnown] using hk
       split at hg
@@ -585,7 +576,7 @@ theorem inner_NB {E : Env} (hU : UnifyLaws E) (hS : SetLaws E) {rec : Rec} (hrec
         obtain ⟨cs, hcs, rfl⟩ := Option.map_eq_some_iff.mp hg
         have hpl := gcAll_inv E uns oe hcs
         exact tupToList_NB hU hrec hnb hpl hne hps hkl
-          (fun it hit => ⟨wfL_mem hwi it hit, hasOptL_mem hoi it hit, hr it hit⟩) hwo hdo
+          (fun it hit => ⟨wfL_mem hwi it hit, hasOptL_mem hoi it hit⟩) hwo hdo
   | set oe =>
     have hwo : wf oe = true := by simpa [wf] using hwO
     have hdo : hasDyn oe = false := by simpa [hasDyn] using hdO
@@ -593,7 +584,6 @@ theorem inner_NB {E : Env} (hU : UnifyLaws E) (hS : SetLaws E) {rec : Rec} (hrec
     case list ie =>
       have hwi : wf ie = true := by simpa [wf] using hwI
       have hoi : hasOpt ie = false := by simpa [hasOpt] using hoI
-      have hr : regular E ie oe = true := by simpa [regular, Ty.isDyn] using hreg
       obtain ⟨ps, rfl, hps⟩ := shape_list hp hwt
       have hkl : Payload.whollyKnownL ps = true := by simpa [Payload.whollyKnown] using hk
       have hm : Members (ps.map fun p => (⟨ie, p⟩ : Value)) ie := by
@@ -607,11 +597,10 @@ theorem inner_NB {E : Env} (hU : UnifyLaws E) (hS : SetLaws E) {rec : Rec} (hrec
         · obtain ⟨c', hc', rfl⟩ := Option.map_eq_some_iff.mp hg
           exact ⟨_, rfl, .inr ⟨c', rfl, hc'⟩⟩
       obtain ⟨conv, rfl, hpf⟩ := hpf
-      exact collToSet_NB hU hS hrec hnb hpf hwi hoi hwo hdo hr rfl hm
+      exact collToSet_NB hU hS hrec hnb hpf hwi hoi hwo hdo rfl hm
     case set ie =>
       have hwi : wf ie = true := by simpa [wf] using hwI
       have hoi : hasOpt ie = false := by simpa [hasOpt] using hoI
-      have hr : regular E ie oe = true := by simpa [regular, Ty.isDyn] using hreg
       obtain ⟨ids, ps, rfl, hps⟩ := shape_set hp hwt
       have hkl : Payload.whollyKnownL ps = true := by simpa [Payload.whollyKnown] using hk
       have hm : Members ((setValues E ie ps).map fun p => (⟨ie, p⟩ : Value)) ie := by
@@ -624,14 +613,10 @@ theorem inner_NB {E : Env} (hU : UnifyLaws E) (hS : SetLaws E) {rec : Rec} (hrec
         · obtain ⟨c', hc', rfl⟩ := Option.map_eq_some_iff.mp hg
           exact ⟨_, rfl, .inr ⟨c', rfl, hc'⟩⟩
       obtain ⟨conv, rfl, hpf⟩ := hpf
-      exact collToSet_NB hU hS hrec hnb hpf hwi hoi hwo hdo hr rfl hm
+      exact collToSet_NB hU hS hrec hnb hpf hwi hoi hwo hdo rfl hm
     case tuple its =>
       have hwi : wfL its = true := by simpa [wf] using hwI
       have hoi : hasOptL its = false := by simpa [hasOpt] using hoI
-      have hr : ∀ it ∈ its, regular E it oe = true := by
-        have := hreg
-        simp only [regular, Ty.isDyn, Bool.false_eq_true, if_false, Bool.and_eq_true] at this
-        exact all_of_regular this.1
       obtain ⟨ps, rfl, hps⟩ := shape_tuple hp hwt
       have hkl : Payload.whollyKnownL ps = true := by simpa [Payload.whollyKnown] using hk
       split at hg
@@ -644,7 +629,7 @@ theorem inner_NB {E : Env} (hU : UnifyLaws E) (hS : SetLaws E) {rec : Rec} (hrec
         obtain ⟨cs, hcs, rfl⟩ := Option.map_eq_some_iff.mp hg
         have hpl := gcAll_inv E uns oe hcs
         exact tupToSet_NB hS hrec hnb hpl hne hps hkl
-          (fun it hit => ⟨wfL_mem hwi it hit, hasOptL_mem hoi it hit, hr it hit⟩) hwo hdo
+          (fun it hit => ⟨wfL_mem hwi it hit, hasOptL_mem hoi it hit⟩) hwo hdo
   | map oe =>
     have hwo : wf oe = true := by simpa [wf] using hwO
     have hdo : hasDyn oe = false := by simpa [hasDyn] using hdO
@@ -652,7 +637,6 @@ theorem inner_NB {E : Env} (hU : UnifyLaws E) (hS : SetLaws E) {rec : Rec} (hrec
     case map ie =>
       have hwi : wf ie = true := by simpa [wf] using hwI
       have hoi : hasOpt ie = false := by simpa [hasOpt] using hoI
-      have hr : regular E ie oe = true := by simpa [regular, Ty.isDyn] using hreg
       obtain ⟨ks, ps, rfl, _, hps⟩ := shape_map hp hwt
       have hkl : Payload.whollyKnownL ps = true := by simpa [Payload.whollyKnown] using hk
       have hm : Members (ps.map fun p => (⟨ie, p⟩ : Value)) ie := by
@@ -660,16 +644,12 @@ theorem inner_NB {E : Env} (hU : UnifyLaws E) (hS : SetLaws E) {rec : Rec} (hrec
         obtain ⟨p, hpm, rfl⟩ := List.mem_map.mp he
         exact ⟨rfl, wtAll_mem hps p hpm, whollyKnownL_mem hkl p hpm⟩
       obtain ⟨c', hc', rfl⟩ := hg
-      exact collToMap_NB hU hrec hnb (.inr ⟨c', rfl, hc'⟩) hwi hoi hwo hdo hr rfl hm
+      exact collToMap_NB hU hrec hnb (.inr ⟨c', rfl, hc'⟩) hwi hoi hwo hdo rfl hm
     case object inn its ios =>
       have hwi : wfL its = true := by
         simp only [wf, Bool.and_eq_true] at hwI; exact hwI.2
       have hoi : hasOptL its = false := by
         simp only [hasOpt, Bool.or_eq_false_iff] at hoI; exact hoI.2
-      have hr : ∀ it ∈ its, regular E it oe = true := by
-        have := hreg
-        simp only [regular, Ty.isDyn, Bool.false_eq_true, if_false, Bool.and_eq_true] at this
-        exact all_of_regular this.1
       obtain ⟨ps, rfl, hps⟩ := shape_object hp hwt
       have hkl : Payload.whollyKnownL ps = true := by simpa [Payload.whollyKnown] using hk
       split at hg
@@ -683,18 +663,16 @@ theorem inner_NB {E : Env} (hU : UnifyLaws E) (hS : SetLaws E) {rec : Rec} (hrec
         have hpl := gcAll_inv E uns oe hcs
         simp only [wf, Bool.and_eq_true, beq_iff_eq] at hwI
         exact objToMap_NB hU hrec hnb hpl hne hps hkl (strictAsc_nodup hwI.1.2) hwI.1.1.1
-          (fun it hit => ⟨wfL_mem hwi it hit, hasOptL_mem hoi it hit, hr it hit⟩) hwo hdo
+          (fun it hit => ⟨wfL_mem hwi it hit, hasOptL_mem hoi it hit⟩) hwo hdo
   | tuple ots =>
     cases vt <;> simp [gck, Ty.isDyn, isPrim] at hg hid
     case tuple its =>
       obtain ⟨hlen, cs, hcs, rfl⟩ := hg
       obtain ⟨ps, rfl, hps⟩ := shape_tuple hp hwt
       have hkl : Payload.whollyKnownL ps = true := by simpa [Payload.whollyKnown] using hk
-      have hr : regularZip E its ots = true := by
-        have := hreg; simp [regular, Ty.isDyn] at this; exact this.2
       have hpl := gcZip_inv E uns hlen hcs
       exact tupToTup_NB hnb hpl hps hkl (by simpa [wf] using hwI) (by simpa [hasOpt] using hoI)
-        (by simpa [wf] using hwO) (by simpa [hasDyn] using hdO) hr
+        (by simpa [wf] using hwO) (by simpa [hasDyn] using hdO)
   | object on ot oo =>
     cases vt <;> simp [gck, Ty.isDyn, isPrim] at hg hid
     case map ie =>
@@ -702,21 +680,19 @@ theorem inner_NB {E : Env} (hU : UnifyLaws E) (hS : SetLaws E) {rec : Rec} (hrec
       subst huns
       obtain ⟨ks, ps, rfl, _, hps⟩ := shape_map hp hwt
       have hkl : Payload.whollyKnownL ps = true := by simpa [Payload.whollyKnown] using hk
-      have hr := hreg; simp [regular, Ty.isDyn] at hr
       have hwO' := hwO
       simp only [wf, Bool.and_eq_true, beq_iff_eq] at hwO'
       have hpl := mapToObjConvs_inv E true ie (hwO'.1.1.2.symm) hcs
       exact mapToObj_NB hnb hpl hps hkl (by simpa [wf] using hwI) (by simpa [hasOpt] using hoI)
-        hwO hdO hr
+        hwO hdO
     case object inn its ios =>
       obtain ⟨hreq, cs, hcs, rfl⟩ := hg
       obtain ⟨ps, rfl, hps⟩ := shape_object hp hwt
       have hkl : Payload.whollyKnownL ps = true := by simpa [Payload.whollyKnown] using hk
-      have hr : regularObj E inn its ios on ot = true := by simpa [regular, Ty.isDyn] using hreg
       have hwI' := hwI
       simp only [wf, Bool.and_eq_true, beq_iff_eq] at hwI'
       have hpl := gcObj_inv E uns on ot oo hwI'.1.1.1 hcs
-      exact objToObj_NB hnb hpl hps hkl hwI hoI hwO hdO hr
+      exact objToObj_NB hnb hpl hps hkl hwI hoI hwO hdO
 
 /-! ### the wrapper, and every fuel -/
 
@@ -742,8 +718,8 @@ theorem recNB_apply {E : Env} (hU : UnifyLaws E) (hS : SetLaws E) : ∀ n, RecNB
       simp only [apply, applyStep]
       split
       · rename_i hm
-        have hc' : Conds E inT out v.unmark :=
-          ⟨hc.ty, hc.wfI, hc.wfO, hc.optI, hc.dynO, hc.reg, unmark_wt hm hc.wt⟩
+        have hc' : Conds inT out v.unmark :=
+          ⟨hc.ty, hc.wfI, hc.wfO, hc.optI, hc.dynO, unmark_wt hm hc.wt⟩
         have := ih n (Nat.lt_succ_self n) inT out uns c v.unmark hg hc' (unmark_whollyKnown hk)
         cases hres : apply E n (.wrap out c) v.unmark with
         | ok r => exact NB.ok _
@@ -755,7 +731,7 @@ theorem recNB_apply {E : Env} (hU : UnifyLaws E) (hS : SetLaws E) : ∀ n, RecNB
         have hkn := known_of_whollyKnown hm' hk
         simp only [hnd, Bool.false_eq_true, if_false, hkn, Bool.not_true, Bool.false_or]
         split
-        · have hrepl := dynRepl_id E hU inT out hc.reg hc.dynO hc.wfO
+        · have hrepl := dynRepl_id E inT out hc.dynO hc.wfO
           rw [hc.ty, hrepl]
           exact NB.ok _
         · rename_i hnn
@@ -766,9 +742,9 @@ theorem recNB_apply {E : Env} (hU : UnifyLaws E) (hS : SetLaws E) : ∀ n, RecNB
             exact inner_NB hU hS (recOK_apply hU m) (ih m (by omega)) inT out uns c v hg hc
               ⟨hm', hkn, (by simpa using hnn : v.isNull = false)⟩ hk
 
-/-- `Convert` never panics on a wholly-known value of a regular E pair -/
+/-- `Convert` never panics on a wholly-known value to a placeholder-free target -/
 theorem convert_NB {E : Env} (hU : UnifyLaws E) (hS : SetLaws E) {v : Value} {want : Ty} (fuel : Nat)
-    (hp : RegularPair E v want) (hk : Payload.whollyKnown v.v = true) : NB true (convert E fuel v want) := by
+    (hp : RegularPair v want) (hk : Payload.whollyKnown v.v = true) : NB true (convert E fuel v want) := by
   unfold convert convertWith
   split
   · exact NB.ok _
@@ -780,7 +756,7 @@ theorem convert_NB {E : Env} (hU : UnifyLaws E) (hS : SetLaws E) {v : Value} {wa
 
 /-- a conversion obtained from `getConversion` -/
 theorem apply_NB {E : Env} (hU : UnifyLaws E) (hS : SetLaws E) {v : Value} {want : Ty} {uns : Bool} {p : Plan}
-    (fuel : Nat) (hp : RegularPair E v want) (hk : Payload.whollyKnown v.v = true)
+    (fuel : Nat) (hp : RegularPair v want) (hk : Payload.whollyKnown v.v = true)
     (hg : getConv E v.ty want uns = some p) : NB uns (apply E fuel p v) := by
   obtain ⟨c, hc, rfl⟩ := Option.map_eq_some_iff.mp hg
   exact recNB_apply hU hS fuel v.ty want uns c v hc hp.conds hk
